@@ -263,6 +263,12 @@ prop("C17",
 EXTRA_LANES["C17"] = [valgrind_lane()]
 
 EXTRA_LANES["C01"] = [miri_lane()]
+# the same workloads (tiny) under the UB / data-race interpreter for the lanes that run without real
+# sockets or child processes: hostile bytes (C11), framing (C06), the pure parsers and codecs
+for _p in ("C02", "C06", "C08", "C11", "C12", "C15", "C19", "C20"):
+    EXTRA_LANES.setdefault(_p, []).append(miri_lane())
+    if "Miri" not in META[_p]["technique"]:
+        META[_p]["technique"] += "; Miri lane (thorough tier)"
 
 
 # ---- properties not (yet) claimed ----
